@@ -22,6 +22,7 @@ pub struct Prep {
     script: String,
     opc: Vec<(&'static str, u64)>,
     atoms: [u64; 14],
+    long_tok: bool,
 }
 
 fn atom_idx(a: Atom) -> usize {
@@ -66,7 +67,15 @@ pub fn prep(data: &[u8], ops: &[Op]) -> Prep {
         m.insert("script_empty", 1);
     }
     let script = ops.iter().map(fmt_op).collect::<Vec<_>>().join(" ; ");
-    Prep { data: data.to_vec(), hex: hex_of(data), script, opc: m.into_iter().collect(), atoms }
+    let mut long_tok = false;
+    let mut o = Oracle::new(data);
+    while let Some(t) = o.next_token() {
+        if t.len() > 20 {
+            long_tok = true;
+            break;
+        }
+    }
+    Prep { data: data.to_vec(), hex: hex_of(data), script, opc: m.into_iter().collect(), atoms, long_tok }
 }
 
 impl<'a> Gen<'a> {
@@ -117,11 +126,13 @@ impl<'a> Gen<'a> {
         let mut intr = false;
         let mut pos = 0usize;
         let (mut tok_split, mut crlf_split, mut minus_split, mut cuts) = (false, false, false, 0u64);
+        let mut deep_split = false;
         'outer: for &(it, c) in sched {
             match it {
                 Item::Intr => intr = true,
                 Item::Chunk(k) => {
                     for _ in 0..c {
+                        let start = pos;
                         pos = pos.saturating_add(k);
                         if pos >= n {
                             break 'outer;
@@ -130,6 +141,17 @@ impl<'a> Gen<'a> {
                         let (x, y) = (p.data[pos - 1], p.data[pos]);
                         if !is_ws(x) && !is_ws(y) {
                             tok_split = true;
+                            if !deep_split && pos - start >= 21 {
+                                // does the split token start inside this chunk, >= 21 bytes before the boundary?
+                                let mut ts = pos - 1;
+                                while ts > start && !is_ws(p.data[ts - 1]) {
+                                    ts -= 1;
+                                }
+                                let starts_here = ts > start || start == 0 || is_ws(p.data[start - 1]);
+                                if starts_here && pos - ts >= 21 {
+                                    deep_split = true;
+                                }
+                            }
                         }
                         if x == b'\r' && y == b'\n' {
                             crlf_split = true;
@@ -156,6 +178,12 @@ impl<'a> Gen<'a> {
         }
         if crlf_split {
             self.bump("cases_crlf_split_by_chunk_boundary");
+        }
+        if deep_split {
+            self.bump("cases_long_token_split_at_offset_ge_21");
+        }
+        if p.long_tok {
+            self.bump("cases_with_token_longer_than_20");
         }
         if minus_split {
             self.bump("cases_minus_digit_split_by_chunk_boundary");
@@ -268,6 +296,10 @@ pub enum SK {
     CrLf,
     AroundCr,
     Intr,
+    Rand9to64,
+    Rand1to40,
+    SplitLong,
+    SplitLongIntr,
 }
 
 fn sk_name(k: SK) -> &'static str {
@@ -281,6 +313,10 @@ fn sk_name(k: SK) -> &'static str {
         SK::CrLf => "sched_between_cr_lf",
         SK::AroundCr => "sched_around_every_cr",
         SK::Intr => "sched_random_with_interrupts",
+        SK::Rand9to64 => "sched_random_9_64",
+        SK::Rand1to40 => "sched_random_1_40",
+        SK::SplitLong => "sched_split_inside_long_token",
+        SK::SplitLongIntr => "sched_split_inside_long_token_with_interrupts",
     }
 }
 
@@ -295,6 +331,38 @@ fn rand8(rng: &mut SplitMix64, n: usize) -> Sched {
         pos += k;
     }
     s
+}
+
+fn rand_range(rng: &mut SplitMix64, n: usize, lo: usize, hi: usize) -> Sched {
+    let mut s = Sched::new();
+    let mut pos = 0usize;
+    let stop = if rng.chance(1, 4) { rng.below(n as u64 + 1) as usize } else { n + rng.below(3) as usize };
+    while pos < stop {
+        let k = lo + rng.below((hi - lo + 1) as u64) as usize;
+        push_item(&mut s, Item::Chunk(k), 1);
+        pos += k;
+    }
+    s
+}
+
+/// split points strictly inside tokens of length >= 4 (each token with probability 1/2)
+fn long_token_cuts(rng: &mut SplitMix64, data: &[u8]) -> Vec<usize> {
+    let tb = token_bounds(data);
+    let mut cuts = Vec::new();
+    for se in tb.chunks(2) {
+        let (s, e) = (se[0], se[1]);
+        let len = e - s;
+        if len >= 4 && rng.chance(1, 2) {
+            let off = if rng.chance(1, 2) {
+                1 + rng.below(len as u64 - 1) as usize
+            } else {
+                // deep inside: the second half of the token
+                len / 2 + rng.below((len - len / 2) as u64) as usize
+            };
+            cuts.push(s + off.clamp(1, len - 1));
+        }
+    }
+    cuts
 }
 
 pub fn make_sched(rng: &mut SplitMix64, kind: SK, data: &[u8]) -> Sched {
@@ -313,6 +381,30 @@ pub fn make_sched(rng: &mut SplitMix64, kind: SK, data: &[u8]) -> Sched {
             s
         }
         SK::Rand8 => rand8(rng, n),
+        SK::Rand9to64 => rand_range(rng, n, 9, 64),
+        SK::Rand1to40 => rand_range(rng, n, 1, 40),
+        SK::SplitLong => {
+            let c = long_token_cuts(rng, data);
+            from_cuts(n, &c, explicit)
+        }
+        SK::SplitLongIntr => {
+            let c = long_token_cuts(rng, data);
+            let base = from_cuts(n, &c, explicit);
+            let mut o = Sched::new();
+            for &(it, cnt) in &base {
+                for _ in 0..cnt {
+                    push_item(&mut o, it, 1);
+                    if rng.chance(1, 3) {
+                        push_item(&mut o, Item::Intr, intr_run(rng));
+                    }
+                }
+            }
+            if !o.iter().any(|(it, _)| *it == Item::Intr) {
+                let at = rng.below(o.len() as u64 + 1) as usize;
+                o.insert(at, (Item::Intr, 1));
+            }
+            return o;
+        }
         SK::TokBound => {
             let cuts: Vec<usize> = token_bounds(data).into_iter().filter(|_| rng.chance(4, 5)).collect();
             let mut c = cuts;
@@ -375,7 +467,13 @@ pub fn pick_kinds(rng: &mut SplitMix64, data: &[u8], lines_bias: bool) -> Vec<SK
         cand.push(SK::Bytes);
     }
     if n >= 2 {
-        cand.extend([SK::Twos, SK::Rand8, SK::TokBound]);
+        cand.extend([SK::Twos, SK::Rand8, SK::TokBound, SK::Rand1to40]);
+    }
+    if n >= 10 {
+        cand.push(SK::Rand9to64);
+    }
+    if token_bounds(data).chunks(2).any(|se| se[1] - se[0] >= 4) {
+        cand.extend([SK::SplitLong, SK::SplitLongIntr]);
     }
     if has_minus {
         cand.extend([SK::Minus, SK::Minus]);
@@ -393,7 +491,7 @@ pub fn pick_kinds(rng: &mut SplitMix64, data: &[u8], lines_bias: bool) -> Vec<SK
         guard += 1;
         let k = *rng.pick(&cand);
         // Intr and Rand8 are random, so they may repeat; the others are (mostly) deterministic
-        if !out.contains(&k) || k == SK::Intr || k == SK::Rand8 {
+        if !out.contains(&k) || matches!(k, SK::Intr | SK::Rand8 | SK::Rand9to64 | SK::Rand1to40 | SK::SplitLong | SK::SplitLongIntr) {
             out.push(k);
         }
     }
@@ -452,7 +550,7 @@ pub fn int_token(rng: &mut SplitMix64, a: Atom) -> Vec<u8> {
     let (minmag, max) = bounds(a);
     let signed = minmag > 0;
     let small = |v: u128| v.min(max);
-    let (neg, mag) = match rng.below(14) {
+    let (neg, mag) = match rng.below(17) {
         0 => (signed, minmag),
         1 => {
             if signed {
@@ -470,6 +568,23 @@ pub fn int_token(rng: &mut SplitMix64, a: Atom) -> Vec<u8> {
         8 => (false, small(100)),
         9 => (false, max - 1),
         10 => (false, max),
+        11..=13 if bits(a) >= 64 => {
+            // long decimal tokens: 19..20 digits for 64-bit types, 21..39 digits for 128-bit types
+            let (dlo, dhi) = if bits(a) == 128 { (21, 39) } else { (19, 20) };
+            let d = dlo + rng.below(dhi - dlo + 1);
+            let mut m: u128 = 0;
+            let mut over = false;
+            for i in 0..d {
+                let dig = if i == 0 { 1 + rng.below(9) } else { rng.below(10) } as u128;
+                match m.checked_mul(10).and_then(|x| x.checked_add(dig)) {
+                    Some(x) => m = x,
+                    None => over = true,
+                }
+            }
+            let neg = signed && rng.chance(1, 2);
+            let lim = if neg { minmag } else { max };
+            (neg, if over || m > lim { lim - rng.below(1000) as u128 } else { m })
+        }
         _ => {
             let b = 1 + rng.below(bits(a));
             let raw = ((rng.next_u64() as u128) << 64) | rng.next_u64() as u128;
@@ -530,7 +645,7 @@ pub fn rand_sep(rng: &mut SplitMix64, out: &mut Vec<u8>) {
 pub fn token_for(rng: &mut SplitMix64, a: Atom) -> Vec<u8> {
     match a {
         Atom::Str => {
-            let l = 1 + rng.below(12) as usize;
+            let l = if rng.chance(1, 8) { 21 + rng.below(40) } else { 1 + rng.below(12) } as usize;
             word(rng, l)
         }
         Atom::Chr => vec![0x21 + rng.below(0x7e - 0x21 + 1) as u8],
@@ -734,54 +849,6 @@ pub fn group(rng: &mut SplitMix64, items: &[It]) -> Vec<Op> {
                         i += 1;
                     }
                 }
-            }
-        }
-    }
-    ops
-}
-
-/// grouping for very long inputs: few big ops
-pub fn group_big(rng: &mut SplitMix64, items: &[It]) -> Vec<Op> {
-    let mut ops = Vec::new();
-    let mut i = 0;
-    while i < items.len() {
-        match items[i] {
-            It::Eof => {
-                ops.push(Op::Eof);
-                i += 1;
-            }
-            It::Line => {
-                ops.push(Op::Line);
-                i += 1;
-            }
-            It::Lines => {
-                ops.push(Op::Lines);
-                i += 1;
-            }
-            It::A(a) => {
-                let mut r = 0;
-                while i + r < items.len() && items[i + r] == It::A(a) {
-                    r += 1;
-                }
-                if r >= 12 {
-                    let n1 = 1 + rng.below((r - 10) as u64) as usize;
-                    ops.push(Op::V(n1, vec![a]));
-                    ops.push(Op::R(a));
-                    let k = 2 + rng.below(7) as usize;
-                    ops.push(Op::T(vec![a; k]));
-                    let rest = r - n1 - 1 - k;
-                    if rest >= 6 && rng.chance(1, 2) {
-                        let kk = 2 + rng.below(2) as usize;
-                        let nn = rest / kk / 2;
-                        ops.push(Op::V(nn, vec![a; kk]));
-                        ops.push(Op::V(rest - nn * kk, vec![a]));
-                    } else {
-                        ops.push(Op::V(rest, vec![a]));
-                    }
-                } else {
-                    ops.push(Op::V(r, vec![a]));
-                }
-                i += r;
             }
         }
     }
